@@ -18,6 +18,7 @@ from .schema import (
 
 COLOR = EnumDef("Color", (("ZERO", 0), ("ONE", 1), ("NEG", -1),
                           ("BIG", 2**31 - 1), ("MIN", -(2**31))))
+SHADE = EnumDef("Shade", (("SHADE_ZERO", 0), ("SHADE_ONE", 1), ("SHADE_NEG", -3), ("SHADE_TWELVE", 12)))
 LIB_MSGS = (
     Msg("Empty", ()),
     Msg("Sub", (Field("a", 1, "int32"), Field("s", 2, "string"))),
@@ -30,7 +31,7 @@ LIB_MSGS = (
 )
 
 ALL_KINDS = (
-    SCALARS + ["enum:Color", "msg:Sub", "msg:Empty", "timestamp", "duration"]
+    SCALARS + ["enum:Color", "enum:Shade", "msg:Sub", "msg:Empty", "timestamp", "duration"]
     + [f"wrap:{k}" for k in WRAPPERS]
 )
 QUICK_PAIR_KINDS = [
@@ -184,7 +185,7 @@ class Universe:
         ks = Msg("KS", tuple(ks_fields))
         msgs.append(ks)
         self._plans.append(("KS", ks, [u for u in units if not (u.card == "map" and u.kind.startswith("wrap:"))]))
-        self.schema = Schema("vfu", (COLOR,), tuple(msgs))
+        self.schema = Schema("vfu", (COLOR, SHADE), tuple(msgs))
         self.bp = build_bp(self.schema, "vf_universe_" + tier)
         self.ref = build_ref(self.schema)
         self.types: List[TypeCase] = []
